@@ -68,10 +68,10 @@ impl Monitor for C02 {
         "cases = base universe (families tiny/medium/conf/deep biased to constrains-heavy, plus 'big' 20x8 universes) with 6 metamorphic variants (candidate order, ranks/favored, dense id renumbering, hint pattern, activity parameters, async completion order); every variant's verdict is compared with a brute-force existence search on the base (small universes); every Unsolvable verdict is additionally certified from the hooked clause database (each problem clause equals the reference encoding of the provider facts, each learnt clause is RUP-derivable in order, unit propagation refutes the root); every Ok result is checked with the reference `valid`. distinct = content hash of base; non-trivial = base where some run had >= 2 conflicts or a restart".into()
     }
     fn cases(&self, tier: Tier) -> u64 {
-        tier.pick(9_000, 600_000)
+        tier.pick(72_000, 1_440_000)
     }
     fn floor(&self, tier: Tier) -> u64 {
-        tier.pick(200, 10_000)
+        tier.pick(800, 8_000)
     }
     fn generate(&self, r: &mut Rng, _tier: Tier, _i: u64) -> C02Case {
         let (name, cfg) = pick_family(r, FAMILIES);
